@@ -566,5 +566,27 @@ def r09_10(ctx):
         raise AnalysisError(f"only {n} functions with plain locals examined in {CORE}")
 
 
+def r09_11(ctx):
+    """R09.11 a relation between numbers is decided by comparing them, not by arithmetic on them: in expr_value() no `+`/`-`/`*` is
+    applied to the converted operands (`_sym_to_num(..)`) outside a handler for OverflowError - an int option may hold any number
+    of digits (set_value accepts 10**350) and `int - float` raises OverflowError beyond the float range, so a condition such as
+    `X > 1.5` could not be evaluated on an accepted tree (fixed defect 5.44)."""
+    from .common import expand_locals
+    repo = ctx.repo
+    f = repo.func(f"{CORE}:expr_value")
+    ctx.analysed(f.qual)
+    from ..taint import TaintAnalysis, _FuncTaint
+    ft = _FuncTaint(TaintAnalysis(repo, CORE), f, {})
+    ops = [n for n in ast.walk(f.node) if isinstance(n, ast.BinOp) and isinstance(n.op, (ast.Sub, ast.Add, ast.Mult))
+           and "_sym_to_num(" in expand_locals(f.node, n)]
+    uses = [n for n in ast.walk(f.node) if isinstance(n, ast.Call) and ast.unparse(n.func) == "_sym_to_num"]
+    if not uses:
+        raise AnchorError("expr_value: operands are no longer converted with _sym_to_num")
+    construct = "expr_value/numeric operands are compared, not subtracted"
+    bad = [n for n in ops if not ft.handled(n, "OverflowError")]
+    (ctx.bad(construct, f"`{ast.unparse(bad[0])[:60]}` raises OverflowError for an int beyond the float range against a float operand, and no enclosing handler "
+             "catches it: the symbol that depends on the relation cannot be evaluated", f.loc(bad[0])) if bad else ctx.ok(construct, f.loc(uses[0])))
+
+
 def rules():
-    return [("R09.10", r09_10, 80), ("R09.9", r09_9, 1), ("R09.8", r09_8, 1), ("R09.7", r09_7, 2), ("R09.6", r09_6, 6), ("R09.1", r09_1, 14), ("R09.1b", r09_1b, 3), ("R09.2", r09_2, 6), ("R09.3", r09_3, 8), ("R09.4", r09_4, 5), ("R09.5", r09_5, 10)]
+    return [("R09.11", r09_11, 1), ("R09.10", r09_10, 80), ("R09.9", r09_9, 1), ("R09.8", r09_8, 1), ("R09.7", r09_7, 2), ("R09.6", r09_6, 6), ("R09.1", r09_1, 14), ("R09.1b", r09_1b, 3), ("R09.2", r09_2, 6), ("R09.3", r09_3, 8), ("R09.4", r09_4, 5), ("R09.5", r09_5, 10)]
